@@ -264,25 +264,25 @@ CHECKS = {
              "assertion: probe + known finding); faulted lifecycle histories and allocator-trait configurations other than the default are not run in three configurations; Coq 8.16.1 kernel, Print "
              "Assumptions in the evidence; two open known findings (null-base slice of an empty owning array; re-based diagonal = KF-C19-diagonal-rebased)"),
     "C04": dict(
-        text='Theorems C04_history_invariant (any fault-free history of construction from values / arrays / views / ranges / initializer lists / other element types, copy and move construction and assignment over any prior state, swap, reextent, clear, writes, destruction; any rank >= 1, extents, index bases, trait configuration: no illegal lifetime or storage transition, and afterwards every array is backed by its own live block of exactly num_elements constructed cells), C04_storage_disjoint, C04_layout_matches_block, C04_move_ctor_no_copy, C04_swap_no_copy, C04_self_{copy,move}_assign_noop, C04_copy_ctor_extents, C04_view_ctor_extents, C04_move_leaves_empty_valid. The equality of every array with its reference-model VALUE is checked by evaluation of the reference interpreter on every generated history and by the tie (extensions, elements, block classes, allocator ids after every step; disjointness and aliasing monitors), not proved.',
+        text='Theorems C04_history_invariant (any fault-free history of construction from values / arrays / views / ranges / initializer lists / other element types, copy and move construction and assignment over any prior state, swap, reextent, clear, writes, destruction; any rank >= 1, extents, index bases, trait configuration: no illegal lifetime or storage transition, and afterwards every array is backed by its own live block of exactly num_elements constructed cells), C04_storage_disjoint, C04_layout_matches_block, C04_move_ctor_no_copy, C04_swap_no_copy, C04_self_{copy,move}_assign_noop, C04_copy_ctor_extents, C04_view_ctor_extents, C04_move_leaves_empty_valid, and the VALUE side: C04_value_semantics (after any fault-free history in its documented domain the abstraction of the machine state -- per live array its reported extensions and the flat values of its block; moved-from cells keep their value and never belong to a live array between operations -- equals run_values of the history, the 50-line interpreter over (extensions, values) pairs), C04_operation_refines (the commuting square of each of the 26 operations on any state with the ownership invariant), C04_copy_independent, C04_copy_independent_of_source, C04_assign_from_view_value (views given by the lifecycle model\'s own offsets record, computed by the driver with Model/View.v). Tie: extensions, elements, block classes, allocator ids after every step; disjointness and aliasing monitors; element kinds that separate the type traits.',
         design_ref="5/C04", technique='Coq proof (ownership invariant of an executable lifecycle machine, Hoare triples with an exceptional postcondition, induction over histories and loops) + extracted-model vs library differential on random histories with an instrumented element type and allocator',
-        note="Coq 8.16.1 kernel; every property theorem 'Closed under the global context'; one model coq/Model/Life.v (25 array.hpp entry points as programs over checked micro-steps) shared by C04/C06/C08/C09/C10; the refinement of the machine to the reference interpreter over element VALUES is evaluated on every generated history and compared with the library, not proved; faults: single injection point per run; rank >= 1 (rank-0 arrays are a separate class specialisation); ExtrOcamlBasic extraction; g++ 12/libstdc++"),
+        note="Coq 8.16.1 kernel; every property theorem 'Closed under the global context'; one model coq/Model/Life.v (26 entry points as programs over checked micro-steps; element type given by three traits: trivially default constructible, trivially destructible, trivially copyable) shared by C04/C06/C08/C09/C10; the refinement of the machine to the reference interpreter over element VALUES is proved (C04_value_semantics, one commuting square per operation) and additionally evaluated on every generated history; hypotheses: every extensions argument has D dimensions, value lists have the announced length; faults: single injection point per run; rank >= 1 (rank-0 arrays are a separate class specialisation); ExtrOcamlBasic extraction; g++ 12/libstdc++"),
     "C06": dict(
-        text='Theorems C06_history_invariant, C06_reextent_same_noop (both overloads: same block, iterators and views stay valid), C06_clear_empty_valid, C06_reshape_flat, C06_reextent_reference_spec (for any old/new extensions the reference function keeps exactly the common index tuples and fills the rest); element values after reextent / assign / initializer-list assignment are compared with the model and the reference interpreter on generated (old, new) extension pairs incl. empty, zero-inner-extent and re-based ones.',
+        text='Theorems C06_history_invariant, C06_reextent_same_noop (both overloads: same block, iterators and views stay valid), C06_clear_empty_valid, C06_reshape_flat, C06_reextent_reference_spec (for any old/new extensions the reference function keeps exactly the common index tuples and fills the rest), and on the MACHINE: C06_reextent_spec (reextent(x) / reextent(x, v) from any extensions to any extensions of the same rank with sizes >= 0, incl. empty, zero-inner-extent and re-based ones: the array reports the collapsed new extensions, an index tuple of the new extensions that lies in the old ones keeps its value, every other one reads the fill value or the value-initialised element), C06_reextent_new_elements_value_initialised (value-initialised = 0 for every element type that is not trivially default constructible, whatever its destructor), C06_reshape_flat_values, C06_assign_contents (assign(first,last) / = {nested list}: exactly the requested contents), C06_assign_fill_contents. Tie: element values after every call on generated (old, new) extension pairs, four element kinds.',
         design_ref="5/C06", technique='Coq proof (ownership invariant of an executable lifecycle machine, Hoare triples with an exceptional postcondition, induction over histories and loops) + extracted-model vs library differential on random histories with an instrumented element type and allocator',
-        note="Coq 8.16.1 kernel; every property theorem 'Closed under the global context'; one model coq/Model/Life.v (25 array.hpp entry points as programs over checked micro-steps) shared by C04/C06/C08/C09/C10; the refinement of the machine to the reference interpreter over element VALUES is evaluated on every generated history and compared with the library, not proved; faults: single injection point per run; rank >= 1 (rank-0 arrays are a separate class specialisation); ExtrOcamlBasic extraction; g++ 12/libstdc++"),
+        note="Coq 8.16.1 kernel; every property theorem 'Closed under the global context'; one model coq/Model/Life.v (26 entry points as programs over checked micro-steps; element type given by three traits: trivially default constructible, trivially destructible, trivially copyable) shared by C04/C06/C08/C09/C10; the refinement of the machine to the reference interpreter over element VALUES is proved (C04_value_semantics, one commuting square per operation) and additionally evaluated on every generated history; hypotheses: every extensions argument has D dimensions, value lists have the announced length; faults: single injection point per run; rank >= 1 (rank-0 arrays are a separate class specialisation); ExtrOcamlBasic extraction; g++ 12/libstdc++"),
     "C08": dict(
-        text='Theorems C08_lifetime_invariant (every history of every operation in its documented domain: the checked interpreter never reports constructing over a live object, destroying/reading/assigning a raw one, releasing an unknown or dead block, with the wrong size, through an unequal allocator or with live elements; every live block is owned by exactly one array and fully constructed), C08_balanced_at_end, C08_trivial_not_written.',
+        text='Theorems C08_lifetime_invariant (every history of every operation in its documented domain: the checked interpreter never reports constructing over a live object, destroying/reading/assigning a raw one, releasing an unknown or dead block, with the wrong size, through an unequal allocator or with live elements; every live block is owned by exactly one array and fully constructed), C08_balanced_at_end, C08_trivial_not_written, C08_reextent_trivial_not_written (reextent without a fill value leaves the new elements of every trivially default constructible element type unwritten: they read the allocator\'s paint; nothing assumed about copy operations).',
         design_ref="5/C08", technique='Coq proof (ownership invariant of an executable lifecycle machine, Hoare triples with an exceptional postcondition, induction over histories and loops) + extracted-model vs library differential on random histories with an instrumented element type and allocator',
-        note="Coq 8.16.1 kernel; every property theorem 'Closed under the global context'; one model coq/Model/Life.v (25 array.hpp entry points as programs over checked micro-steps) shared by C04/C06/C08/C09/C10; the refinement of the machine to the reference interpreter over element VALUES is evaluated on every generated history and compared with the library, not proved; faults: single injection point per run; rank >= 1 (rank-0 arrays are a separate class specialisation); ExtrOcamlBasic extraction; g++ 12/libstdc++"),
+        note="Coq 8.16.1 kernel; every property theorem 'Closed under the global context'; one model coq/Model/Life.v (26 entry points as programs over checked micro-steps; element type given by three traits: trivially default constructible, trivially destructible, trivially copyable) shared by C04/C06/C08/C09/C10; the refinement of the machine to the reference interpreter over element VALUES is proved (C04_value_semantics, one commuting square per operation) and additionally evaluated on every generated history; hypotheses: every extensions argument has D dimensions, value lists have the announced length; faults: single injection point per run; rank >= 1 (rank-0 arrays are a separate class specialisation); ExtrOcamlBasic extraction; g++ 12/libstdc++"),
     "C09": dict(
-        text='Theorem C09_fault_safety_partial (every history, every single injection point k at an allocation or element construction/assignment outside three named sites: the exception reaches the caller, nothing leaks, nothing is released twice, every array stays valid, temporaries are unwound), C09_{ctor_leak,reextent_leak,reextent_move}_refuted with vm_compute witnesses reproduced on the library (three known findings: constructors leak their block when an element constructor throws; reextent & leaks its new block; reextent && leaves an invalid array when allocation fails); no-storage operations do not allocate (move construction, swap).',
+        text='Theorem C09_fault_safety_partial (every history, every single injection point k at an allocation or element construction/assignment outside three named sites: the exception reaches the caller, nothing leaks, nothing is released twice, every array stays valid, temporaries are unwound), C09_{ctor_leak,reextent_leak,reextent_move}_refuted with vm_compute witnesses reproduced on the library (three known findings: constructors leak their block when an element constructor throws; reextent & leaks its new block; reextent && leaves an invalid array when allocation fails); no-storage operations do not allocate (move construction, swap); assignment through views (row = row, view = view, elements() = elements(); named, temporary and moved forms) is an operation of every history: C09_fault_safety_partial covers it (its fault site is an element assignment), C09_view_assign_keeps_arrays; tie: std::terminate in the harness child is a violation.',
         design_ref="5/C09", technique='Coq proof (ownership invariant of an executable lifecycle machine, Hoare triples with an exceptional postcondition, induction over histories and loops) + extracted-model vs library differential on random histories with an instrumented element type and allocator',
-        note="Coq 8.16.1 kernel; every property theorem 'Closed under the global context'; one model coq/Model/Life.v (25 array.hpp entry points as programs over checked micro-steps) shared by C04/C06/C08/C09/C10; the refinement of the machine to the reference interpreter over element VALUES is evaluated on every generated history and compared with the library, not proved; faults: single injection point per run; rank >= 1 (rank-0 arrays are a separate class specialisation); ExtrOcamlBasic extraction; g++ 12/libstdc++"),
+        note="Coq 8.16.1 kernel; every property theorem 'Closed under the global context'; one model coq/Model/Life.v (26 entry points as programs over checked micro-steps; element type given by three traits: trivially default constructible, trivially destructible, trivially copyable) shared by C04/C06/C08/C09/C10; the refinement of the machine to the reference interpreter over element VALUES is proved (C04_value_semantics, one commuting square per operation) and additionally evaluated on every generated history; hypotheses: every extensions argument has D dimensions, value lists have the announced length; faults: single injection point per run; rank >= 1 (rank-0 arrays are a separate class specialisation); ExtrOcamlBasic extraction; g++ 12/libstdc++"),
     "C10": dict(
         text="Theorems C10_block_stays_with_allocator (every release goes through an allocator equal to the producer: part of the checked interpreter's invariant, for every history and all 16 trait configurations) and the propagation theorems: copy construction uses select_on_container_copy_construction, copy assignment / move assignment / swap replace the allocator exactly under POCCA / POCMA / POCS, allocator-extended constructors use the supplied allocator, moves between unequal non-propagating allocators move elements, never the block. Tie on the trait configurations plus std::pmr arrays over two logging memory resources.",
         design_ref="5/C10", technique='Coq proof (ownership invariant of an executable lifecycle machine, Hoare triples with an exceptional postcondition, induction over histories and loops) + extracted-model vs library differential on random histories with an instrumented element type and allocator',
-        note="Coq 8.16.1 kernel; every property theorem 'Closed under the global context'; one model coq/Model/Life.v (25 array.hpp entry points as programs over checked micro-steps) shared by C04/C06/C08/C09/C10; the refinement of the machine to the reference interpreter over element VALUES is evaluated on every generated history and compared with the library, not proved; faults: single injection point per run; rank >= 1 (rank-0 arrays are a separate class specialisation); ExtrOcamlBasic extraction; g++ 12/libstdc++"),
+        note="Coq 8.16.1 kernel; every property theorem 'Closed under the global context'; one model coq/Model/Life.v (26 entry points as programs over checked micro-steps; element type given by three traits: trivially default constructible, trivially destructible, trivially copyable) shared by C04/C06/C08/C09/C10; the refinement of the machine to the reference interpreter over element VALUES is proved (C04_value_semantics, one commuting square per operation) and additionally evaluated on every generated history; hypotheses: every extensions argument has D dimensions, value lists have the announced length; faults: single injection point per run; rank >= 1 (rank-0 arrays are a separate class specialisation); ExtrOcamlBasic extraction; g++ 12/libstdc++"),
 }
 
 NOT_YET = {
